@@ -468,6 +468,11 @@ func exRandomGraph(r *rng, o exGenOpts) *exGraph {
 				continue
 			}
 		}
+		if len(d.base) > 0 && r.chance(1, 10) {
+			// the empty schema (it accepts every value): a target with no member at all, in typed and in untyped documents
+			d.tree = map[string]interface{}{}
+			continue
+		}
 		d.tree = g.tree(d.doc, d.rank, 2)
 		if len(d.base) == 0 && r.chance(1, 2) {
 			// a document that is a schema refers to itself as a whole: the recursive idiom "$ref": "#"
@@ -807,7 +812,7 @@ func exInjectFault(r *rng, g *exGraph) (*exGraph, string) {
 	s := exDecodeStore(g.Docs, nil)
 	docs := g.docList()
 	holders := exAllHolders(s, docs)
-	kind := r.intn(9) / 2 // 0 missing document, 1 2 dangling pointer, 3 ill-typed target, 4 absent optional member
+	kind := r.intn(11) / 2 // 0 missing document, 1 2 dangling pointer, 3 ill-typed target, 4 absent optional member, 5 index at the edge of a list
 	if kind == 0 && len(docs) > 1 {
 		var others []string
 		for _, u := range docs {
@@ -857,6 +862,23 @@ func exInjectFault(r *rng, g *exGraph) (*exGraph, string) {
 			}
 			td["x-vals"] = map[string]interface{}{"string": "text", "number": 3.5, "boolean": true, "array": []interface{}{1.0, "a"}}
 			tokens = []string{"x-vals", tp}
+		} else if kind == 5 && h.Kind == exSchema {
+			// a pointer into a list of schemas that ends just outside it: one past the end, negative, not a number, or an index
+			// under an `items` that is a single schema
+			fault = "edge-index"
+			td, ok := s[t.Doc].(map[string]interface{})
+			if !ok {
+				continue
+			}
+			defs, _ := td["definitions"].(map[string]interface{})
+			if defs == nil {
+				defs = map[string]interface{}{}
+				td["definitions"] = defs
+			}
+			defs["edge"] = map[string]interface{}{"type": "array", "items": []interface{}{map[string]interface{}{"type": "string"}, map[string]interface{}{"type": "integer"}},
+				"allOf": []interface{}{map[string]interface{}{"type": "array"}}, "not": map[string]interface{}{"type": "array", "items": map[string]interface{}{"type": "null"}}}
+			tokens = append([]string{"definitions", "edge"}, [][]string{{"items", "2"}, {"items", "3"}, {"items", "-1"}, {"items", "x"}, {"allOf", "1"},
+				{"not", "items", "0"}, {"items", "2", "type"}, {"allOf", "-1"}}[r.intn(8)]...)
 		} else if kind == 4 && h.Kind == exSchema {
 			// a pointer to an optional member that the (existing) target does not have
 			fault = "absent-member"
@@ -1606,12 +1628,19 @@ func exUnionsGraph() *exGraph {
 			"open":   map[string]interface{}{"type": "object", "additionalProperties": true},
 			"typed":  map[string]interface{}{"type": "object", "additionalProperties": map[string]interface{}{"type": "string"}, "not": map[string]interface{}{"type": "null"}},
 			"plain":  map[string]interface{}{"type": "object"},
-		}}}, "file:///u/root.json")
+			"ext": map[string]interface{}{"type": "object", "X-Inner": map[string]interface{}{"in": map[string]interface{}{"type": "boolean"}},
+				"x-inner": map[string]interface{}{"in": map[string]interface{}{"type": "number"}}},
+		},
+		// vendor extensions in the spellings the decoders accept (the prefix is matched case-insensitively, the key is kept as written)
+		"X-Shared": map[string]interface{}{"thing": map[string]interface{}{"type": "string", "format": "upper"}},
+		"x-shared": map[string]interface{}{"thing": map[string]interface{}{"type": "string", "format": "lower"}},
+		"x-Mixed":  map[string]interface{}{"thing": map[string]interface{}{"type": "integer"}}}}, "file:///u/root.json")
 }
 
 var exUnionRefs = []string{"#/definitions/tuple/items", "#/definitions/tuple/items/0", "#/definitions/tuple/additionalItems", "#/definitions/list/items",
 	"#/definitions/list/additionalItems", "#/definitions/closed/additionalProperties", "#/definitions/open/additionalProperties",
-	"#/definitions/typed/additionalProperties", "#/definitions/typed/not", "#/definitions/plain/not", "#/definitions/plain/items", "#/definitions/plain/additionalProperties"}
+	"#/definitions/typed/additionalProperties", "#/definitions/typed/not", "#/definitions/plain/not", "#/definitions/plain/items", "#/definitions/plain/additionalProperties",
+	"#/X-Shared/thing", "#/x-shared/thing", "#/x-Mixed/thing", "#/X-SHARED/thing", "#/definitions/ext/X-Inner/in", "#/definitions/ext/x-inner/in", "#/definitions/ext/x-INNER/in"}
 
 func genExpandCases(r *rng, n int, tier string, cw *caseWriter) {
 	exQuiet()
